@@ -534,6 +534,8 @@ def run(tier):
     C02.rule_R7(res, prog, prop=PROP, rid="C10.R10")
     rule_R11(res, prog)
     rule_R12(res, prog)
+    rule_R13(res, prog)
+    rule_R14(res, prog)
     return res.finish()
 
 
@@ -992,3 +994,105 @@ def rule_R12(res, prog):
                     if sc.get("b") is not None:
                         stack.append((sc["b"], atoms + tuple((txt, tr) for (txt, tr, nd) in cu._cond_atoms(t["c"], k == 0))))
     res.floor(rid, 1)
+
+
+def rule_R13(res, prog):
+    """RFC 8446 4.1.4 / 4.2: a HelloRetryRequest may carry key_share, cookie and supported_versions - not pre_shared_key; a
+    conforming client aborts with illegal_parameter when it finds one (MatrixSSL's own client does not look, so the two
+    agree with each other).  The ServerHello writer adds pre_shared_key whenever tls13UsingPsk is set, so on every path to
+    tls13WriteServerHello(.., isHelloRetryRequest = true) tls13UsingPsk and extFlags.got_pre_shared_key have been cleared."""
+    from sa import cfgutil as cu
+    rid = "C10.R13"
+    res.rule(rid, "a HelloRetryRequest never carries pre_shared_key: the PSK marks are cleared before it is written")
+    lst = prog.by_name.get("tls13EncodeResponseServer")
+    if not lst:
+        if prog.defined("USE_TLS_1_3"):
+            raise AnalysisBroken("C10.R13: tls13EncodeResponseServer vanished")
+        res.floor(rid, 0)
+        return
+    fn = lst[0]
+
+    def is_hrr_write(x):
+        for m in walk(x):
+            if m.get("k") == "call" and m.get("fn") == "tls13WriteServerHello" and len(m.get("a", [])) >= 3:
+                a = strip(m["a"][2])
+                while a is not None and a.get("k") == "cast":
+                    a = strip(a["e"])
+                if a is not None and a.get("k") == "int" and a["v"] != 0:
+                    return True
+        return False
+
+    def clears(field):
+        def t(x):
+            for m in walk(x):
+                if m.get("k") == "bin" and m["op"] == "=" and cu.ftext(strip(m["l"]) or {}) == field:
+                    r = strip(m["r"])
+                    while r is not None and r.get("k") == "cast":
+                        r = strip(r["e"])
+                    if r is not None and r.get("k") == "int" and r["v"] == 0:
+                        return True
+            return False
+        return t
+    for field in ("ssl->sec.tls13UsingPsk", "ssl->extFlags.got_pre_shared_key"):
+        esc = cu.escapes(fn, (fn.entry, None), clears(field), target_expr=is_hrr_write)
+        f_ = None
+        if esc is not None:
+            f_ = Finding(PROP, rid, fn.name, "HelloRetryRequest written with the PSK mark still set",
+                         "%s:%s tls13EncodeResponseServer(): the HelloRetryRequest is written (via lines %s) while %s may still be set from the "
+                         "first ClientHello: the ServerHello writer then adds pre_shared_key (extension 41) to the HelloRetryRequest, which "
+                         "RFC 8446 4.2 forbids - a conforming client aborts with illegal_parameter, MatrixSSL's own client accepts it" % (
+                             fn.relfile, esc[-1][1], [p_[1] for p_ in esc[-5:]], field), file=fn.relfile, line=esc[-1][1])
+        res.instance(rid, "tls13EncodeResponseServer: %s cleared before a HelloRetryRequest is written" % field, esc is None, finding=f_)
+    res.floor(rid, 2)
+
+
+def rule_R14(res, prog):
+    """RFC 8446 4.2.11: selected_identity is an index into the identities of THIS ClientHello, and the key schedule continues
+    from the early secret of the selected PSK.  The client's three walks over its PSK list - writing the identities
+    (tls13WritePreSharedKey), filling in the binders (tls13FillInPskBinders), mapping selected_identity back
+    (tls13ParsePreSharedKey) - must leave out the same PSKs (those whose hash no offered suite covers: both
+    tls13CHContainsSha*Suite tests appear in each), and the mapping step re-arms the early-secret derivation, because the
+    binder computation leaves the secret of the LAST list entry behind."""
+    from sa import cfgutil as cu
+    rid = "C10.R14"
+    res.rule(rid, "TLS 1.3 client: the three walks over the PSK list agree on which PSKs were offered; the selected PSK's early secret is re-derived")
+    n = 0
+    for name in ("tls13WritePreSharedKey", "tls13FillInPskBinders", "tls13ParsePreSharedKey"):
+        lst = prog.by_name.get(name)
+        if not lst:
+            continue
+        fn = lst[0]
+        n += 1
+        conds = " ".join(cu.ftext(b["term"]["c"]) for b in fn.blocks if b.get("term") and "c" in b["term"])
+        ok = "tls13CHContainsSha384Suite" in conds and "tls13CHContainsSha256Suite" in conds
+        f_ = None
+        if not ok:
+            f_ = Finding(PROP, rid, fn.name, "PSK list walked without the `was it offered` filter",
+                         "%s:%s %s(): walks ssl->sec.tls13SessionPskList without testing tls13CHContainsSha384Suite / tls13CHContainsSha256Suite, "
+                         "while the identity writer leaves out PSKs whose hash no offered suite covers: binders land in the wrong slots (and "
+                         "past the buffer), or selected_identity is mapped to another PSK than the server meant" % (
+                             fn.relfile, fn.blocks[0].get("ln", 0) if fn.blocks else 0, fn.name), file=fn.relfile, line=0)
+        res.instance(rid, "%s: applies the offered-PSK filter" % fn.name, ok, finding=f_)
+    lst = prog.by_name.get("tls13ParsePreSharedKey")
+    if lst:
+        fn = lst[0]
+        for b in fn.blocks:
+            for i, ln, x in cu.block_exprs(b):
+                for m in walk(x):
+                    if m.get("k") == "bin" and m["op"] == "=" and cu.ftext(strip(m["l"]) or {}) == "ssl->sec.tls13SelectedIdentityIndex" and \
+                            (strip(m["r"]) or {}).get("k") in ("var", "cast"):
+                        n += 1
+                        def rearm(y):
+                            return any(q.get("k") == "bin" and q["op"] == "=" and "generateEarlySecretDone" in cu.ftext(strip(q["l"]) or {}) and
+                                       (strip(q["r"]) or {}).get("k") == "int" and strip(q["r"])["v"] == 0 for q in walk(y))
+                        esc = cu.escapes(fn, (b["id"], i), rearm, is_target=cu.success_ret)
+                        f_ = None
+                        if esc is not None:
+                            f_ = Finding(PROP, rid, fn.name, "early secret not re-derived for the selected PSK",
+                                         "%s:%s tls13ParsePreSharedKey(): after the server's selected_identity was mapped to a PSK the function returns "
+                                         "(line %s) without re-arming tls13GenerateEarlySecret (generateEarlySecretDone = 0): the early secret in place is "
+                                         "that of the LAST PSK the binders were computed for, so with two PSKs loaded (ticket + external PSK) the "
+                                         "handshake keys are wrong whenever the server picks another one" % (fn.relfile, ln, esc[-1][1]),
+                                         file=fn.relfile, line=ln)
+                        res.instance(rid, "tls13ParsePreSharedKey:%s selection re-arms the early-secret derivation" % ln, esc is None, finding=f_)
+    res.floor(rid, 4)
